@@ -1,35 +1,431 @@
+//! G1 correspondence harness for C13 (connection lifecycle): 1..3 threads run
+//! create_sender / create_receiver / drop / leak / forced remove_sender|remove_receiver /
+//! is_connected on ONE connection name of the REAL zero_copy_connection over process_local
+//! dynamic storage, under the baton scheduler, and print every access to the connection state
+//! byte, to the storage ownership flag and every storage-level operation (map critical section).
+//!
+//! usage: c13 exh <bound> <shard> <nshards> <seed> <maxexecs>     all schedules <= bound preemptions of the program pool
+//!        c13 rnd <count> <shard> <nshards> <seed>                random programs, random schedules
+//!        c13 seq <maxlen> <shard> <nshards>                       all sequential histories (one thread) up to maxlen ops
+//!        c13 one <program> <schedule>                             replay, e.g. one "cs0|cs0" 0,1,1,1,0,0,0
+//!        c13 posix <program> <schedule>                           replay on posix_shared_memory storage (observations only)
+//! program: threads separated by '|', ops by ',': cs<v> cr<v> (create sender/receiver with
+//! parameter variant v; 0 = base), d<k> (drop the port made by this thread's op k), l<k> (leak
+//! it: the owner died), fs fr (forced removal), ic<k> (is_connected).
+//!
+//! Gate filter (see model/ConnState.v, GRANULARITY): scheduling points are the accesses to the
+//! state byte (common.rs, 1 byte wide), to Storage::has_ownership (process_local.rs) and the
+//! `handle.get()` of Mutex::lock of PROCESS_LOCAL_STORAGE; everything inside the critical
+//! section is recorded (map derefs, initializer) but never parks.
 extern crate iceoryx2_bb_loggers;
+use iceoryx2_bb_system_types::file_name::FileName;
 use iceoryx2_cal::named_concept::*;
 use iceoryx2_cal::zero_copy_connection::*;
-use iceoryx2_bb_system_types::file_name::FileName;
+use iceoryx2_pal_concurrency_sync::verif_gate::{Access, Kind};
 use sched::*;
-type Conn = iceoryx2_cal::zero_copy_connection::process_local::Connection;
+use std::cell::Cell;
+use std::io::Write;
+use std::sync::atomic::{AtomicUsize, Ordering as O};
 
-fn main() {
-    iceoryx2_log::set_log_level(iceoryx2_log::LogLevel::Fatal);
-    install();
-    let name = FileName::new(b"c13probe").unwrap();
-    let _ = Conn::does_exist(&name);
-    let body: Box<dyn FnOnce() + Send> = Box::new(move || {
-        let s = <Conn as ZeroCopyConnection>::Builder::new(&name).create_sender();
-        ret(if s.is_ok() { 1 } else { 0 });
-        let r = <Conn as ZeroCopyConnection>::Builder::new(&name).buffer_size(7).create_receiver();
-        ret(if r.is_ok() { 1 } else { 0 });
-        let r = <Conn as ZeroCopyConnection>::Builder::new(&name).create_receiver();
-        ret(if r.is_ok() { 1 } else { 0 });
-        let e = Conn::does_exist(&name).unwrap();
-        ret(e as u64 + 10);
+type PlConn = iceoryx2_cal::zero_copy_connection::process_local::Connection;
+type ShmConn = iceoryx2_cal::zero_copy_connection::posix_shared_memory::Connection;
+
+#[derive(Clone, Copy, Debug, PartialEq)]
+enum Role { S, R }
+#[derive(Clone, Copy, Debug, PartialEq)]
+enum Op { Create(Role, usize), Drop(usize), Leak(usize), Force(Role), IsConn(usize) }
+
+fn op_str(o: &Op) -> String {
+    match o {
+        Op::Create(Role::S, v) => format!("cs{}", v), Op::Create(Role::R, v) => format!("cr{}", v),
+        Op::Drop(k) => format!("d{}", k), Op::Leak(k) => format!("l{}", k),
+        Op::Force(Role::S) => "fs".into(), Op::Force(Role::R) => "fr".into(), Op::IsConn(k) => format!("ic{}", k),
+    }
+}
+fn parse_op(s: &str) -> Op {
+    if let Some(v) = s.strip_prefix("cs") { return Op::Create(Role::S, v.parse().unwrap()); }
+    if let Some(v) = s.strip_prefix("cr") { return Op::Create(Role::R, v.parse().unwrap()); }
+    if let Some(v) = s.strip_prefix("ic") { return Op::IsConn(v.parse().unwrap()); }
+    if s == "fs" { return Op::Force(Role::S); }
+    if s == "fr" { return Op::Force(Role::R); }
+    if let Some(v) = s.strip_prefix('d') { return Op::Drop(v.parse().unwrap()); }
+    if let Some(v) = s.strip_prefix('l') { return Op::Leak(v.parse().unwrap()); }
+    panic!("bad op {}", s)
+}
+fn prog_str(p: &[Vec<Op>]) -> String { p.iter().map(|t| t.iter().map(op_str).collect::<Vec<_>>().join(",")).collect::<Vec<_>>().join("|") }
+fn parse_prog(s: &str) -> Vec<Vec<Op>> { s.split('|').map(|t| t.split(',').filter(|x| !x.is_empty()).map(parse_op).collect()).collect() }
+
+/// parameter variants: (buffer size, max borrowed, overflow, samples per segment, segments, channels)
+fn variant(v: usize) -> (usize, usize, bool, usize, u8, usize) {
+    let b = (2, 2, false, 4, 1u8, 1);
+    match v {
+        0 => b, 1 => (3, b.1, b.2, b.3, b.4, b.5), 2 => (b.0, 3, b.2, b.3, b.4, b.5), 3 => (b.0, b.1, true, b.3, b.4, b.5),
+        4 => (b.0, b.1, b.2, 5, b.4, b.5), 5 => (b.0, b.1, b.2, b.3, 2, b.5), 6 => (b.0, b.1, b.2, b.3, b.4, 2),
+        7 => (3, 1, b.2, b.3, b.4, b.5), _ => panic!("variant"),
+    }
+}
+
+fn err_code(e: ZeroCopyCreationError) -> u64 {
+    use ZeroCopyCreationError::*;
+    match e {
+        IsBeingCleanedUp => 1, AnotherInstanceIsAlreadyConnected => 2, IncompatibleBufferSize => 3,
+        IncompatibleMaxBorrowedSamplesPerChannelSetting => 4, IncompatibleOverflowSetting => 5, IncompatibleNumberOfSamples => 6,
+        IncompatibleNumberOfSegments => 7, IncompatibleNumberOfChannels => 8, _ => 30,
+    }
+}
+
+const BEGIN: u64 = 1 << 40;
+
+// ---------------- gate filter ----------------
+static LOCK_CELL: AtomicUsize = AtomicUsize::new(0);
+static VALUE_CELL: AtomicUsize = AtomicUsize::new(0);
+static INIT_DELTA: AtomicUsize = AtomicUsize::new(0);
+thread_local! { static IN_CS: Cell<bool> = const { Cell::new(false) }; }
+
+fn is_state_byte(a: &Access) -> bool { a.width == 1 && a.kind != Kind::Cell && a.file.ends_with("zero_copy_connection/common.rs") }
+fn is_init_store(a: &Access) -> bool { a.width == 8 && a.kind == Kind::Store && a.file.ends_with("zero_copy_connection/common.rs") }
+fn is_own_flag(a: &Access) -> bool { a.file.ends_with("dynamic_storage/process_local.rs") }
+
+fn filter_pl(a: &Access) -> u8 {
+    if a.kind == Kind::Cell && a.addr == LOCK_CELL.load(O::Relaxed) {
+        let inside = IN_CS.with(|c| c.replace(!c.get()));
+        return if inside { FILTER_LOG } else { FILTER_GATE };
+    }
+    if IN_CS.with(|c| c.get()) {
+        if (a.kind == Kind::Cell && a.addr == VALUE_CELL.load(O::Relaxed)) || is_init_store(a) { FILTER_LOG } else { FILTER_SKIP }
+    } else if is_state_byte(a) || is_own_flag(a) { FILTER_GATE } else { FILTER_SKIP }
+}
+fn filter_discover(a: &Access) -> u8 { if a.kind == Kind::Cell || is_state_byte(a) || is_init_store(a) { FILTER_LOG } else { FILTER_SKIP } }
+/// posix_shared_memory storage: state byte, SharedMemory::has_ownership, and the harness' own op-start gate
+fn filter_shm(a: &Access) -> u8 {
+    if is_state_byte(a) || a.file.ends_with("c13/src/main.rs") || (a.width == 1 && a.file.ends_with("posix/src/shared_memory.rs")) { FILTER_GATE } else { FILTER_SKIP }
+}
+
+type Body = Box<dyn FnOnce() + Send>;
+
+trait Port: Send { fn connected(&self) -> bool; }
+struct SP<C: ZeroCopyConnection>(C::Sender);
+struct RP<C: ZeroCopyConnection>(C::Receiver);
+impl<C: ZeroCopyConnection> Port for SP<C> { fn connected(&self) -> bool { self.0.is_connected() } }
+impl<C: ZeroCopyConnection> Port for RP<C> { fn connected(&self) -> bool { self.0.is_connected() } }
+
+static START_GATE: iceoryx2_pal_concurrency_sync::atomic::AtomicU8 = iceoryx2_pal_concurrency_sync::atomic::AtomicU8::new(0);
+
+fn body<C: ZeroCopyConnection + 'static>(name: FileName, cfg: C::Configuration, ops: Vec<Op>, start_gate: bool) -> Body
+where C::Configuration: Send + 'static, C::Sender: 'static, C::Receiver: 'static {
+    Box::new(move || {
+        let mut ports: Vec<Option<Box<dyn Port>>> = Vec::new();
+        let end = |code: u64| { let ex = ungated(|| C::does_exist_cfg(&name, &cfg).unwrap_or(false)); ret(2 * code + ex as u64); };
+        let begin = |k: usize| { ret(BEGIN + k as u64); if start_gate { let _ = START_GATE.load(core::sync::atomic::Ordering::Relaxed); } };
+        for (k, op) in ops.iter().enumerate() {
+            match *op {
+                Op::Create(role, v) => {
+                    begin(k);
+                    let (bs, mb, ovf, ns, seg, ch) = variant(v);
+                    let b = C::Builder::new(&name).config(&cfg).buffer_size(bs).receiver_max_borrowed_chunks_per_channel(mb)
+                        .enable_safe_overflow(ovf).number_of_chunks_per_segment(ns).max_supported_shared_memory_segments(seg).number_of_channels(ch);
+                    let res: Result<Box<dyn Port>, ZeroCopyCreationError> = match role {
+                        Role::S => b.create_sender().map(|s| Box::new(SP::<C>(s)) as Box<dyn Port>),
+                        Role::R => b.create_receiver().map(|r| Box::new(RP::<C>(r)) as Box<dyn Port>),
+                    };
+                    let code = match &res { Ok(_) => 0, Err(e) => err_code(*e) };
+                    ports.push(res.ok());
+                    end(code);
+                }
+                Op::Drop(j) => {
+                    if let Some(p) = ports.get_mut(j).and_then(|x| x.take()) { begin(k); drop(p); end(0); }
+                    ports.push(None);
+                }
+                Op::Leak(j) => {
+                    if let Some(p) = ports.get_mut(j).and_then(|x| x.take()) { core::mem::forget(p); }
+                    ports.push(None);
+                }
+                Op::Force(role) => {
+                    begin(k);
+                    let r = unsafe { match role { Role::S => C::remove_sender(&name, &cfg), Role::R => C::remove_receiver(&name, &cfg) } };
+                    end(match r { Ok(()) => 0, Err(ZeroCopyPortRemoveError::DoesNotExist) => 1, Err(_) => 30 });
+                    ports.push(None);
+                }
+                Op::IsConn(j) => {
+                    if let Some(p) = ports.get(j).and_then(|x| x.as_ref()) { begin(k); let c = p.connected(); end(c as u64); }
+                    ports.push(None);
+                }
+            }
+        }
+        // ports still held when the program ends stay attached: the model program ends here
+        for p in ports.into_iter().flatten() { core::mem::forget(p); }
+    })
+}
+
+static NAME_CTR: AtomicUsize = AtomicUsize::new(0);
+fn fresh_name() -> FileName {
+    let n = NAME_CTR.fetch_add(1, O::Relaxed);
+    FileName::new(format!("c13_{}_{}", std::process::id(), n).as_bytes()).unwrap()
+}
+
+/// prints one execution in the line format of g1drv with canonical locations:
+///   map critical section -> `E t <site> 1 swap na na <map derefs> <storages initialised> 1`
+///   state byte           -> address 1000 + incarnation number (creation order)
+///   ownership flag       -> address 2000 + 64 * thread + index of the op that made the handle
+fn emit(prog: &[Vec<Op>], ex: &Exec, exists_final: bool, out: &mut impl Write) {
+    let nt = prog.len();
+    let lock = LOCK_CELL.load(O::Relaxed); let value = VALUE_CELL.load(O::Relaxed); let delta = INIT_DELTA.load(O::Relaxed);
+    let mut lines: Vec<String> = Vec::new();
+    let mut timeline: Vec<String> = Vec::new();
+    let mut in_cs = vec![false; nt]; let mut derefs = vec![0u64; nt]; let mut first_init = vec![0usize; nt];
+    let mut cs_site = vec![String::new(); nt];
+    let mut cur_op = vec![0usize; nt];
+    let mut inc_of: std::collections::HashMap<usize, usize> = std::collections::HashMap::new();
+    let mut next_inc = 0usize;
+    for r in &ex.log {
+        match r {
+            Rec::Acc { tid, file, line, addr, width, kind, ord, ord_fail, rd, wr, ok } => {
+                let t = *tid;
+                let f = file.rsplit('/').next().unwrap_or(file);
+                if *kind == Kind::Cell && *addr == lock {
+                    if !in_cs[t] { in_cs[t] = true; derefs[t] = 0; first_init[t] = 0; cs_site[t] = format!("{}:{}", f, line); }
+                    else {
+                        in_cs[t] = false;
+                        let created = first_init[t] != 0;
+                        if created { inc_of.insert(first_init[t].wrapping_sub(delta), next_inc); next_inc += 1; }
+                        lines.push(format!("E {} {} 1 swap na na {} {} 1", t, cs_site[t], derefs[t], created as u64));
+                    }
+                } else if in_cs[t] {
+                    if *kind == Kind::Cell && *addr == value { derefs[t] += 1; }
+                    else if *width == 8 && *kind == Kind::Store && first_init[t] == 0 { first_init[t] = *addr; }
+                } else if file.ends_with("dynamic_storage/process_local.rs") {
+                    let hidx = match prog[t].get(cur_op[t]) { Some(Op::Drop(j)) => *j, _ => cur_op[t] };
+                    lines.push(format!("E {} {}:{} {} {} {} {} {} {} {}", t, f, line, 2000 + 64 * t + hidx, kind_name(*kind), ord_name(*ord), ord_name(*ord_fail), rd, wr, *ok as u8));
+                } else {
+                    let id = match inc_of.get(addr) { Some(i) => *i, None => { let i = 900 + inc_of.len(); inc_of.insert(*addr, i); i } };
+                    lines.push(format!("E {} {}:{} {} {} {} {} {} {} {}", t, f, line, 1000 + id, kind_name(*kind), ord_name(*ord), ord_name(*ord_fail), rd, wr, *ok as u8));
+                }
+            }
+            Rec::Ret { tid, code } => {
+                if *code == u64::MAX { lines.push(format!("R {} P", tid)); timeline.push(format!("e:{}:{}:999", tid, cur_op[*tid])); }
+                else if *code >= BEGIN { cur_op[*tid] = (*code - BEGIN) as usize; timeline.push(format!("b:{}:{}", tid, cur_op[*tid])); }
+                else { lines.push(format!("R {} {}", tid, code)); timeline.push(format!("e:{}:{}:{}", tid, cur_op[*tid], code)); }
+            }
+        }
+    }
+    let _ = writeln!(out, "C {} {} {}", nt, prog_str(prog), if timeline.is_empty() { "-".to_string() } else { timeline.join(",") });
+    for l in lines { let _ = writeln!(out, "{}", l); }
+    if ex.deadlock { let _ = writeln!(out, "X deadlock"); }
+    let sched: Vec<String> = ex.choices.iter().map(|c| c.to_string()).collect();
+    let _ = writeln!(out, "S {}", sched.join(","));
+    let _ = writeln!(out, "F {}", exists_final as u8);
+}
+
+fn bodies_pl(name: &FileName, prog: &[Vec<Op>]) -> Vec<Body> {
+    prog.iter().map(|ops| body::<PlConn>(*name, Default::default(), ops.clone(), false)).collect()
+}
+fn finish_pl(name: &FileName) -> bool {
+    let ex = PlConn::does_exist(name).unwrap_or(false);
+    let _ = unsafe { PlConn::remove_cfg(name, &Default::default()) };
+    ex
+}
+
+/// learn the addresses of the map mutex's handle cell and value cell, and the distance between the
+/// first channel-state store of the initializer and the state byte of the storage it initialises
+fn discover() {
+    set_filter(filter_discover);
+    let name = fresh_name();
+    let b: Body = Box::new(move || {
+        let _ = PlConn::does_exist(&name);
+        let s = <PlConn as ZeroCopyConnection>::Builder::new(&name).create_sender();
         drop(s);
-        ret(2);
-        drop(r);
-        ret(3);
-        let e = Conn::does_exist(&name).unwrap();
-        ret(e as u64 + 10);
-        let r = unsafe { Conn::remove_sender(&name, &Default::default()) };
-        ret(if r.is_ok() { 1 } else { 0 });
     });
     let mut ch = |_s: usize, en: &[usize], _l: Option<usize>| Choice::Run(en[0]);
-    let ex = run_threads(vec![body], &mut ch);
-    let mut out = std::io::stdout();
-    print_exec(&ex, &mut out);
+    let ex = run_threads(vec![b], &mut ch);
+    let mut cells = Vec::new(); let mut init = 0usize; let mut byte = 0usize;
+    for r in &ex.log {
+        if let Rec::Acc { addr, kind, width, file, .. } = r {
+            if *kind == Kind::Cell { if !cells.contains(addr) { cells.push(*addr); } }
+            else if *width == 8 && *kind == Kind::Store && init == 0 && file.ends_with("common.rs") { init = *addr; }
+            else if *width == 1 && byte == 0 && file.ends_with("common.rs") { byte = *addr; }
+        }
+    }
+    assert!(cells.len() >= 2 && init != 0 && byte != 0, "discovery failed: {:?} {} {}", cells, init, byte);
+    LOCK_CELL.store(cells[0], O::SeqCst); VALUE_CELL.store(cells[1], O::SeqCst); INIT_DELTA.store(init.wrapping_sub(byte), O::SeqCst);
+    set_filter(filter_pl);
+}
+
+/// thread-program pool of the exhaustive mode
+fn pool() -> Vec<Vec<Op>> {
+    use Op::*; use Role::*;
+    vec![
+        vec![Create(S, 0)], vec![Create(R, 0)],
+        vec![Create(S, 0), Drop(0)], vec![Create(R, 0), Drop(0)],
+        vec![Create(S, 0), Create(S, 0)], vec![Create(R, 0), Drop(0), Create(R, 0)],
+        vec![Create(S, 0), Drop(0), Create(S, 0), Drop(2)],
+        vec![Create(S, 0), IsConn(0), Drop(0)], vec![Create(R, 0), IsConn(0)],
+        vec![Create(S, 0), Leak(0)], vec![Create(R, 0), Leak(0), Force(R)],
+        vec![Force(S)], vec![Force(R), Create(R, 0)],
+        vec![Create(S, 1)], vec![Create(R, 2), Drop(0)],
+    ]
+}
+
+fn programs() -> Vec<Vec<Vec<Op>>> {
+    use Op::*; use Role::*;
+    let p = pool();
+    let mut v = Vec::new();
+    for i in 0..p.len() { for j in i..p.len() { v.push(vec![p[i].clone(), p[j].clone()]); } }
+    // every mismatch kind against an attached / attaching peer
+    for k in 1..=7 {
+        v.push(vec![vec![Create(R, 0), Drop(0)], vec![Create(S, k)]]);
+        v.push(vec![vec![Create(S, 0), IsConn(0)], vec![Create(R, k), Drop(0)]]);
+        v.push(vec![vec![Create(S, k), Drop(0)], vec![Create(R, 0), Drop(0)]]);
+    }
+    // three threads
+    let small: Vec<Vec<Op>> = vec![vec![Create(S, 0)], vec![Create(R, 0)], vec![Create(S, 0), Drop(0)], vec![Create(R, 0), Drop(0)], vec![Force(S)], vec![Create(R, 3)]];
+    for i in 0..small.len() { for j in i..small.len() { for k in j..small.len() { v.push(vec![small[i].clone(), small[j].clone(), small[k].clone()]); } } }
+    v
+}
+
+fn random_prog(rng: &mut Rng) -> Vec<Vec<Op>> {
+    let nt = 2 + rng.below(2) as usize;
+    (0..nt).map(|_| {
+        let len = 1 + rng.below(5) as usize;
+        let mut ops: Vec<Op> = Vec::new();
+        for k in 0..len {
+            let creates: Vec<usize> = (0..k).filter(|&i| matches!(ops[i], Op::Create(..))).collect();
+            let role = if rng.below(2) == 0 { Role::S } else { Role::R };
+            let o = match rng.below(10) {
+                0..=3 => Op::Create(role, if rng.below(4) == 0 { 1 + rng.below(7) as usize } else { 0 }),
+                4..=6 if !creates.is_empty() => Op::Drop(creates[rng.below(creates.len() as u64) as usize]),
+                7 if !creates.is_empty() => Op::IsConn(creates[rng.below(creates.len() as u64) as usize]),
+                8 if !creates.is_empty() => Op::Leak(creates[rng.below(creates.len() as u64) as usize]),
+                9 => Op::Force(role),
+                _ => Op::Create(role, 0),
+            };
+            ops.push(o);
+        }
+        ops
+    }).collect()
+}
+
+/// all sequential histories of length exactly n over the op alphabet (d/l/ic refer to earlier creates)
+fn seq_histories(n: usize, mism: &[usize]) -> Vec<Vec<Op>> {
+    let mut cur: Vec<Vec<Op>> = vec![vec![]];
+    for _ in 0..n {
+        let mut next = Vec::new();
+        for h in &cur {
+            let creates: Vec<usize> = (0..h.len()).filter(|&i| matches!(h[i], Op::Create(..))).collect();
+            let mut alpha = vec![Op::Create(Role::S, 0), Op::Create(Role::R, 0), Op::Force(Role::S), Op::Force(Role::R)];
+            for &m in mism { alpha.push(Op::Create(Role::S, m)); alpha.push(Op::Create(Role::R, m)); }
+            for &c in &creates {
+                // a port can be dropped / leaked / queried only while the slot may still hold it
+                let used = h.iter().any(|o| matches!(o, Op::Drop(j) | Op::Leak(j) if *j == c));
+                if !used { alpha.push(Op::Drop(c)); alpha.push(Op::Leak(c)); alpha.push(Op::IsConn(c)); }
+            }
+            for o in alpha { let mut x = h.clone(); x.push(o); next.push(x); }
+        }
+        cur = next;
+    }
+    cur
+}
+
+fn main() {
+    if std::env::var("VERIF_PANIC_VERBOSE").is_err() { std::panic::set_hook(Box::new(|_| {})); }
+    iceoryx2_log::set_log_level(iceoryx2_log::LogLevel::Fatal);
+    let a: Vec<String> = std::env::args().collect();
+    let stdout = std::io::stdout();
+    let mut out = std::io::BufWriter::with_capacity(1 << 20, stdout.lock());
+    install_filtered(filter_discover);
+    let _ = PlConn::does_exist(&fresh_name());
+    if a[1] != "posix" { discover(); }
+    match a[1].as_str() {
+        "exh" => {
+            let bound: usize = a[2].parse().unwrap(); let shard: usize = a[3].parse().unwrap(); let nsh: usize = a[4].parse().unwrap();
+            let maxexecs: usize = a.get(6).map(|s| s.parse().unwrap()).unwrap_or(100000);
+            for (i, prog) in programs().into_iter().enumerate() {
+                if i % nsh != shard { continue; }
+                let cur: std::cell::RefCell<Option<FileName>> = std::cell::RefCell::new(None);
+                let mut mk = || { let name = fresh_name(); let b = bodies_pl(&name, &prog); *cur.borrow_mut() = Some(name); b };
+                let outcell = std::cell::RefCell::new(&mut out);
+                let mut visit = |ex: &Exec| { let name = cur.borrow().unwrap(); let e = finish_pl(&name); emit(&prog, ex, e, &mut **outcell.borrow_mut()); };
+                explore(bound, maxexecs, &mut mk, &mut visit);
+            }
+        }
+        "rnd" => {
+            let count: u64 = a[2].parse().unwrap(); let shard: u64 = a[3].parse().unwrap(); let nsh: u64 = a[4].parse().unwrap(); let seed: u64 = a[5].parse().unwrap();
+            for n in 0..count {
+                if n % nsh != shard { continue; }
+                let mut rng = Rng(seed ^ n.wrapping_mul(0x2545F4914F6CDD1D));
+                let prog = random_prog(&mut rng);
+                let name = fresh_name();
+                let ex = run_random(rng.next(), bodies_pl(&name, &prog));
+                let e = finish_pl(&name);
+                emit(&prog, &ex, e, &mut out);
+            }
+        }
+        "seq" => {
+            let maxlen: usize = a[2].parse().unwrap(); let shard: usize = a[3].parse().unwrap(); let nsh: usize = a[4].parse().unwrap();
+            let mut n = 0usize;
+            for len in 1..=maxlen {
+                // all six mismatch kinds (+ the equal-completion-queue variant) up to length 3, one representative beyond
+                let mism: Vec<usize> = if len <= 3 { (1..=7).collect() } else { vec![1 + (len % 6)] };
+                for h in seq_histories(len, &mism) {
+                    n += 1;
+                    if n % nsh != shard { continue; }
+                    let prog = vec![h];
+                    let name = fresh_name();
+                    let mut ch = |_s: usize, en: &[usize], _l: Option<usize>| Choice::Run(en[0]);
+                    let ex = run_threads(bodies_pl(&name, &prog), &mut ch);
+                    let e = finish_pl(&name);
+                    emit(&prog, &ex, e, &mut out);
+                }
+            }
+        }
+        "one" => {
+            let prog = parse_prog(&a[2]);
+            let sch: Vec<usize> = a[3].split(',').filter(|s| !s.is_empty()).map(|s| s.parse().unwrap()).collect();
+            let name = fresh_name();
+            let mut chooser = |step: usize, enabled: &[usize], last: Option<usize>| -> Choice {
+                if step < sch.len() && enabled.contains(&sch[step]) { Choice::Run(sch[step]) }
+                else { match last { Some(l) if enabled.contains(&l) => Choice::Run(l), _ => Choice::Run(enabled[0]) } }
+            };
+            let ex = run_threads(bodies_pl(&name, &prog), &mut chooser);
+            let e = finish_pl(&name);
+            emit(&prog, &ex, e, &mut out);
+        }
+        "posix" => {
+            // replay on the inter-process storage: gates = op start, state byte, SharedMemory::has_ownership;
+            // open_or_create runs inside the step of the op-start gate, shm_unlink inside the step of the
+            // has_ownership load of SharedMemory::drop.  Prints observations, not a model trace.
+            set_filter(filter_shm);
+            let prog = parse_prog(&a[2]);
+            let sch: Vec<usize> = a[3].split(',').filter(|s| !s.is_empty()).map(|s| s.parse().unwrap()).collect();
+            let name = fresh_name();
+            let mut chooser = |step: usize, enabled: &[usize], last: Option<usize>| -> Choice {
+                if step < sch.len() && enabled.contains(&sch[step]) { Choice::Run(sch[step]) }
+                else { match last { Some(l) if enabled.contains(&l) => Choice::Run(l), _ => Choice::Run(enabled[0]) } }
+            };
+            let cfg: <ShmConn as NamedConceptMgmt>::Configuration = Default::default();
+            let bodies: Vec<Body> = prog.iter().map(|ops| body::<ShmConn>(name, cfg.clone(), ops.clone(), true)).collect();
+            let shm_files = |tag: &str, out: &mut dyn Write| {
+                let mut v: Vec<String> = std::fs::read_dir("/dev/shm").map(|d| d.filter_map(|e| e.ok()).map(|e| e.file_name().to_string_lossy().to_string())
+                    .filter(|f| f.contains(&name.to_string())).collect()).unwrap_or_default();
+                v.sort();
+                let _ = writeln!(out, "SHM {} name={} files={:?}", tag, name, v);
+            };
+            shm_files("before", &mut out);
+            let ex = run_threads(bodies, &mut chooser);
+            for r in &ex.log {
+                match r {
+                    Rec::Acc { tid, file, line, kind, rd, wr, ok, .. } =>
+                        { let _ = writeln!(out, "E {} {}:{} {} rd={} wr={} ok={}", tid, file.rsplit('/').next().unwrap_or(file), line, kind_name(*kind), rd, wr, *ok as u8); }
+                    Rec::Ret { tid, code } =>
+                        { if *code >= BEGIN && *code != u64::MAX { let _ = writeln!(out, "B {} op{}", tid, code - BEGIN); } else { let _ = writeln!(out, "R {} result={} does_exist={}", tid, code / 2, code & 1); } }
+                }
+            }
+            let _ = writeln!(out, "S {}", ex.choices.iter().map(|c| c.to_string()).collect::<Vec<_>>().join(","));
+            shm_files("after-all-threads-finished(ports still held are leaked, not dropped)", &mut out);
+            let e = ShmConn::does_exist_cfg(&name, &cfg).unwrap_or(false);
+            let _ = writeln!(out, "F does_exist={}", e as u8);
+            let _ = unsafe { ShmConn::remove_cfg(&name, &cfg) };
+        }
+        _ => panic!("mode"),
+    }
+    let _ = out.flush();
 }
